@@ -39,6 +39,9 @@ impl<'a> Cursor<'a> {
     /// Peeks the next symbol from the input stream without consuming it.
     /// If requested position doesn't exist, None is returned.
     pub(super) fn peek(&self) -> Option<char> {
+        #[cfg(feature = "verif")]
+        super::verif::tick_cursor(1);
+
         // `.next()` optimizes better than `.nth(0)`
         self.chars.clone().next()
     }
@@ -48,6 +51,9 @@ impl<'a> Cursor<'a> {
     /// However, getting `EOF_CHAR` doesn't always mean actual end of file,
     /// it should be checked with `is_eof` method.
     pub(super) fn peek_next(&self) -> char {
+        #[cfg(feature = "verif")]
+        super::verif::tick_cursor(1);
+
         // `.next()` optimizes better than `.nth(1)`
         let mut iter = self.chars.clone();
         iter.next();
@@ -56,6 +62,9 @@ impl<'a> Cursor<'a> {
 
     /// Moves to the next character.
     pub(super) fn advance(&mut self) -> Option<char> {
+        #[cfg(feature = "verif")]
+        super::verif::tick_cursor(1);
+
         let c = self.chars.next()?;
 
         #[cfg(debug_assertions)]
@@ -74,6 +83,9 @@ impl<'a> Cursor<'a> {
     /// SAFETY: N should be greater than 0.
     pub(super) fn advance_by(&mut self, n: u32) {
         debug_assert!(n > 0);
+
+        #[cfg(feature = "verif")]
+        super::verif::tick_cursor(u64::from(n));
 
         for i in 0..n {
             if cfg!(debug_assertions) {
